@@ -126,30 +126,58 @@ fn run_case(c: &Case) -> Result<(), String> {
     }
 }
 
-/// Max rows per table for a query reading `tables`: start from the tier's
-/// maximum everywhere and shrink (last table first) until the number of
-/// databases fits the per-query budget.
-fn sizes_for(tables: &[String], d: &Domain, nmax_single: usize, nmax_multi: usize, budget: usize) -> Vec<usize> {
-    let refs: Vec<&str> = tables.iter().map(|s| s.as_str()).collect();
-    let mut sizes: Vec<usize> = vec![if tables.len() <= 1 { nmax_single } else { nmax_multi }; tables.len()];
+/// Database bound of one group of queries: per-table max rows + total max rows.
+#[derive(Clone, Debug, PartialEq, Eq, PartialOrd, Ord)]
+struct DbBound {
+    tables: Vec<String>,
+    sizes: Vec<usize>,
+    total: usize,
+}
+
+impl DbBound {
+    fn refs(&self) -> Vec<&str> {
+        self.tables.iter().map(|s| s.as_str()).collect()
+    }
+    fn count(&self, d: &Domain) -> usize {
+        db::count_dbs_bounded(&self.refs(), &self.sizes, self.total, d)
+    }
+}
+
+/// The bound for a query reading `tables` (sorted):
+/// * one table: at most `n1` rows;
+/// * two tables: at most 2 rows each and at most `total2` rows together;
+/// * three tables: at most 1 row each;
+/// then shrunk (total first, then the largest table, later tables first) until
+/// the number of databases fits `budget`.
+fn bound_for(tables: &[String], d: &Domain, n1: usize, total2: usize, budget: usize) -> DbBound {
+    let mut b = match tables.len() {
+        0 => DbBound { tables: vec![], sizes: vec![], total: 0 },
+        1 => DbBound { tables: tables.to_vec(), sizes: vec![n1], total: n1 },
+        2 => DbBound { tables: tables.to_vec(), sizes: vec![2, 2], total: total2 },
+        k => DbBound { tables: tables.to_vec(), sizes: vec![1; k], total: k },
+    };
     loop {
-        if db::count_dbs(&refs, &sizes, d) <= budget {
-            return sizes;
+        if b.count(d) <= budget {
+            return b;
         }
-        // shrink the largest-size table, preferring later tables
-        let mx = *sizes.iter().max().unwrap_or(&0);
+        let mx = *b.sizes.iter().max().unwrap_or(&0);
+        if b.total > mx && b.tables.len() > 1 {
+            b.total -= 1;
+            continue;
+        }
         if mx <= 1 {
-            return sizes;
+            return b;
         }
-        let k = (0..sizes.len()).rev().find(|i| sizes[*i] == mx).unwrap();
-        sizes[k] -= 1;
+        let k = (0..b.sizes.len()).rev().find(|i| b.sizes[*i] == mx).unwrap();
+        b.sizes[k] -= 1;
+        b.total = b.total.min(b.sizes.iter().sum());
     }
 }
 
 fn explore(ctx: &Ctx) {
     let tier = ctx.pick(Tier::Quick, Tier::Thorough);
     let d = ctx.pick(Domain::quick(), Domain::thorough());
-    let (n1, n2, budget) = ctx.pick((2usize, 2usize, 3100usize), (3, 2, 24000));
+    let (n1, total2, budget) = ctx.pick((2usize, 3usize, 3100usize), (3, 3, 5000));
     let qs: Vec<GenQuery> = grammar::queries(tier);
     // result on the empty database, for the non-triviality rule
     let empty_db = Database::empty();
@@ -174,16 +202,22 @@ fn explore(ctx: &Ctx) {
     }
     ctx.count("queries_rejected_statically_by_engine", rejected.len() as u64);
     ctx.set_extra("engine_rejected_queries", json!(rejected));
-    // group queries by (tables, sizes)
-    let mut groups: BTreeMap<(Vec<String>, Vec<usize>), Vec<usize>> = BTreeMap::new();
+    // group queries by database bound
+    let mut groups: BTreeMap<DbBound, Vec<usize>> = BTreeMap::new();
+    let quick_sqls: std::collections::HashSet<String> = if ctx.thorough() { grammar::queries(Tier::Quick).into_iter().map(|q| q.sql).collect() } else { Default::default() };
     for (i, q) in qs.iter().enumerate() {
         if excluded[i] {
             continue;
         }
         let mut tables = q.tables.clone();
         tables.sort();
-        let sizes = sizes_for(&tables, &d, n1, n2, budget);
-        groups.entry((tables, sizes)).or_default().push(i);
+        let b = bound_for(&tables, &d, n1, total2, budget);
+        groups.entry(b).or_default().push(i);
+        // thorough: the quick list's two-table queries also get the full n <= 2 on both tables
+        if ctx.thorough() && tables.len() == 2 && quick_sqls.contains(&q.sql) {
+            let full = bound_for(&tables, &d, n1, 4, 25000);
+            groups.entry(full).or_default().push(i);
+        }
     }
     let mut per_family: BTreeMap<String, usize> = BTreeMap::new();
     for q in &qs {
@@ -191,26 +225,22 @@ fn explore(ctx: &Ctx) {
     }
     let group_desc: Vec<Json> = groups
         .iter()
-        .map(|((t, s), v)| {
-            let refs: Vec<&str> = t.iter().map(|x| x.as_str()).collect();
-            json!({"tables": t, "max_rows": s, "databases": db::count_dbs(&refs, s, &d), "queries": v.len()})
-        })
+        .map(|(b, v)| json!({"tables": b.tables, "max_rows_per_table": b.sizes, "max_rows_total": b.total, "databases": b.count(&d), "queries": v.len()}))
         .collect();
     ctx.set_extra(
         "bounds",
         json!({
             "queries": qs.len(), "queries_per_family": per_family, "domain": d,
-            "max_rows_single_table": n1, "max_rows_multi_table": n2, "db_budget_per_query": budget,
+            "max_rows_single_table": n1, "two_tables": format!("<= 2 rows each, <= {total2} together (thorough: quick-list queries also with <= 4 together)"), "three_tables": "<= 1 row each", "db_budget_per_query": budget,
             "layout": "1 partition, 1 batch", "config": "default, target_partitions=1",
             "groups": group_desc,
         }),
     );
     // work items: (group, database), smallest databases first
     let mut work: Vec<(usize, Database)> = vec![];
-    let glist: Vec<(&(Vec<String>, Vec<usize>), &Vec<usize>)> = groups.iter().collect();
-    for (gi, ((tables, sizes), _)) in glist.iter().enumerate() {
-        let refs: Vec<&str> = tables.iter().map(|x| x.as_str()).collect();
-        db::for_each_db(&refs, sizes, &d, |dbv| work.push((gi, dbv)));
+    let glist: Vec<(&DbBound, &Vec<usize>)> = groups.iter().collect();
+    for (gi, (b, _)) in glist.iter().enumerate() {
+        db::for_each_db_bounded(&b.refs(), &b.sizes, b.total, &d, |dbv| work.push((gi, dbv)));
     }
     work.sort_by_key(|(gi, dbv)| (dbv.total_rows(), *gi));
     if ctx.seed != 0 {
